@@ -70,7 +70,18 @@ with cf.ThreadPoolExecutor(max_workers=jobs) as ex:
             if alarms:
                 bad += 1
             print('%-7s %-60s %s' % ('silent' if not alarms else 'ALARM', name, alarms or ''), flush=True)
-json.dump(out, open(os.path.join(V, 'mutants', 'SELFTEST.json'), 'w'), indent=1)
+sp = os.path.join(V, 'mutants', 'SELFTEST.json')
+if only is not None and os.path.exists(sp):
+    # partial run: merge into the last full record instead of replacing it
+    try:
+        full = json.load(open(sp))
+        for k in ('break', 'benign'):
+            full.setdefault(k, {}).update(out[k])
+        json.dump(full, open(sp, 'w'), indent=1)
+    except ValueError:
+        json.dump(out, open(sp, 'w'), indent=1)
+else:
+    json.dump(out, open(sp, 'w'), indent=1)
 nb = len(out['break']); nk = sum(1 for v in out['break'].values() if list(v['exit'].values()) == [1])
 ng = len(out['benign']); ns = sum(1 for v in out['benign'].values() if all(c == 0 for c in v['exit'].values()))
 print('breaking: %d/%d caught; benign: %d/%d silent' % (nk, nb, ns, ng))
